@@ -189,7 +189,7 @@ func ruleErrPropagate(c *Ctx, r *R) {
 						}
 					}
 				case *ssa.Call:
-					if cal := staticCallee(&y.Call); cal != nil && cal.Name() == "Close" && cal.Signature.Recv() != nil && isNamedType(cal.Signature.Recv().Type(), "stream", "PipeSender") && len(y.Call.Args) == 2 && y.Call.Args[1] == e {
+					if cal := staticCallee(&y.Call); cal != nil && fname(cal) == "Close" && cal.Signature.Recv() != nil && isNamedType(cal.Signature.Recv().Type(), "stream", "PipeSender") && len(y.Call.Args) == 2 && y.Call.Args[1] == e {
 						return ss(3), true
 					}
 					// handed to a local function literal / in-package helper that delivers it to the sink (fail(err) →
@@ -509,7 +509,7 @@ func paramReachesSink(helper *ssa.Function, p *ssa.Parameter, depth int) bool {
 		case *ssa.Call:
 			cc := &x.Call
 			if cal := staticCallee(cc); cal != nil {
-				if cal.Name() == "Close" && cal.Signature.Recv() != nil && isNamedType(cal.Signature.Recv().Type(), "stream", "PipeSender") && len(cc.Args) == 2 && cc.Args[1] == ssa.Value(p) {
+				if fname(cal) == "Close" && cal.Signature.Recv() != nil && isNamedType(cal.Signature.Recv().Type(), "stream", "PipeSender") && len(cc.Args) == 2 && cc.Args[1] == ssa.Value(p) {
 					found = true
 				}
 				if depth < 2 && cal.Blocks != nil && rootFn(cal).Pkg == rootFn(helper).Pkg {
